@@ -330,6 +330,10 @@ def _bcsets(M, ndof):
     return dict(one=one, several=several)
 
 
+def VIEWS_LAYOUT_ITEMS(it, tier):
+    return "-1x2x0" in it["id"] or (tier == "thorough" and "-2x2x0" in it["id"])
+
+
 def items(tier):
     q = tier == "quick"
     out = []
